@@ -142,7 +142,7 @@ def _task(t, stop_at=None):
                 visit(acc, twin, twin.prefix + vec[len(prefix):], asg, base_idx + ic)
             k = base_idx + ic
             if k % ENTRY_STRIDE == 5:
-                _via(observe.ENTRIES[(k // ENTRY_STRIDE) % 3], visit, acc, blk, vec, asg, k)
+                _via(observe.ENTRIES[(k // ENTRY_STRIDE) % len(observe.ENTRIES)], visit, acc, blk, vec, asg, k)
             if _stopped(acc, stop_at):
                 return acc
     # depth phase 1: the first points again, now that everything else has been through the library
@@ -303,12 +303,13 @@ def run(ctx, blocks, visit, new_acc, tasks_per_block=None):
         "points_also_judged_via_from_rh_vector": sum(a.get("via_rh", 0) for a in accs),
         "points_also_judged_via_parse_cvss_from_text": sum(a.get("via_text", 0) for a in accs),
         "points_also_judged_after_hash_and_compare": sum(a.get("via_hashed", 0) for a in accs),
+        "points_also_judged_on_a_str_subclass_argument": sum(a.get("via_strsub", 0) for a in accs),
         "points_judged_again_from_a_second_thread": sum(a.get("second_thread", 0) for a in accs),
     }
     for k in ("depth_phase_visits", "histories_from_fresh_process", "history_visits",
               "tasks_run_after_the_prior_history", "tasks", "points_also_judged_via_from_rh_vector",
               "points_also_judged_via_parse_cvss_from_text", "points_also_judged_after_hash_and_compare",
-              "points_judged_again_from_a_second_thread"):
+              "points_judged_again_from_a_second_thread", "points_also_judged_on_a_str_subclass_argument"):
         ctx.depth_stats[k] += prev.get(k, 0)
     return accs + list(haccs)
 
